@@ -270,15 +270,19 @@ def run(R):
                 e_, pos_ = nd.ast, True
                 while isinstance(e_, ast.UnaryOp) and isinstance(e_.op, ast.Not):
                     e_, pos_ = e_.operand, not pos_
-                if isinstance(e_, ast.Call) and q.call_name(e_) == "hasattr" and len(e_.args) == 2 and q.src(e_.args[0]) == ep:
+                if isinstance(e_, ast.Call) and q.call_name(e_) == "hasattr" and len(e_.args) == 2 and q.src(e_.args[0]) == ep \
+                        and isinstance(e_.args[1], ast.Constant) and e_.args[1].value == x.attr:
                     return "T" if pos_ else "F"
                 return None
             px = kit.path_avoiding_guard(scfg_, nodes_x, carries, N, dead_ok=True) if nodes_x else None
             R.check(px is None and bool(kit.guard_edges_exist(scfg_, carries)), "C02.FLOW-THROW", "%s:reads:%s" % (step.qualname, x.attr), R.site(step, x),
-                    "%s.%s is read only after hasattr(%s, ...)" % (ep, x.attr, ep),
-                    "%s.%s is read for an error that need not carry it (not on the true edge of a hasattr test): an error that no task has stamped yet - raised by a "
-                    "batch flush or a lazy future - turns into AttributeError inside the stepper and the task fails with that instead" % (ep, x.attr),
+                    "%s.%s is read only after hasattr(%s, %r)" % (ep, x.attr, ep, x.attr),
+                    "%s.%s is read for an error that need not carry it (not on the true edge of a hasattr test of that attribute; a test of another attribute "
+                    "says nothing: an exception class may define a _task attribute of its own, and stamping can stop half way): an error that no task has "
+                    "stamped - raised by a batch flush or a lazy future, or a user exception with its own bookkeeping - turns into AttributeError inside the "
+                    "stepper and the task fails with that instead" % (ep, x.attr),
                     scfg_.fmt_path(px) if px else None)
+    generator_exit_outcomes(R, ro, hier, "C02.ESCAPE")
     stamp_contained(R, ro, hier, "C02.CAPTURE")
     last_value_fresh(R, ro, "C02.FLOW-FRESH")
     exits_do_not_suppress(R, "C02.EXIT-PROPAGATES")
@@ -286,14 +290,14 @@ def run(R):
     R.require_min("C02.ESCAPE", 3)
 
 
-def stamp_contained(R, ro, hier, rule):
+def stamp_contained(R, ro, hier, rule, classes=None, min_n=3):
     """The exception a task failed with is a user object.  Where the task records bookkeeping on it (error._task = ..., qcore's
     prepare_for_reraise, which sets _type_/_traceback) the object may refuse: a frozen dataclass exception or a class with a
     restrictive __setattr__ raises from the assignment - inside the very handler that is capturing the failure, so the capture is
     lost and an AttributeError/TypeError unwinds the scheduler instead of the failure being delivered.  Every such store on an
     object not yet known to accept attributes is contained (try/except covering Exception)."""
     n = 0
-    for m in ro.AsyncTask.methods.values():
+    for m in [m_ for c_ in (classes or [ro.AsyncTask]) for m_ in c_.methods.values()]:
         cfg = None
         for node in q.scope_nodes(m.node):
             subj = None
@@ -327,7 +331,9 @@ def stamp_contained(R, ro, hier, rule):
                     "%s records bookkeeping on the exception object (`%s`) with nothing containing a refusal: an exception class that does not accept new "
                     "attributes (a frozen dataclass, a restrictive __setattr__) makes this raise inside the handler that captures the task's failure - "
                     "FrozenInstanceError/TypeError unwinds the scheduler and the failure is never delivered" % (m.qualname, q.src(q.enclosing_stmt(node))[:50]))
-    R.need(n >= 3, "fewer bookkeeping stores on exception objects than confirmed by hand (%d < 3)" % n)
+    R.need(n >= min_n, "fewer bookkeeping stores on exception objects than confirmed by hand (%d < %d)" % (n, min_n))
+    if not n:
+        R.ok(rule, "asynq/", "no bookkeeping is stored on exception objects in %s" % ", ".join(c_.name for c_ in (classes or [ro.AsyncTask])))
 
 
 def last_value_fresh(R, ro, rule):
@@ -615,3 +621,51 @@ def capture_guard(R, ro, rule):
                     cfg.fmt_path(p) if p else None)
     if n_sites == 0:
         R.ok(rule, "asynq/scheduler.py", "TaskScheduler contains no completing call on a future")
+
+
+def generator_exit_outcomes(R, ro, hier, rule):
+    """The driver treats GeneratorExit as 'the generator was left': the task completes with a value.  The package exports
+    GeneratorExit subclasses that are failures, not results (AsyncTaskCancelledError): raised in a task body - or thrown into it
+    by a failed dependency - they must fail the task like any other exception, not complete it with None."""
+    driver = ro.step_method_task()
+    acc = ro.accept_error_method()
+    cfg = cfg_of(driver)
+    hs = [h for t in ast.walk(driver.node) if isinstance(t, ast.Try) for h in t.handlers
+          if h.type is not None and "GeneratorExit" in [x.split(".")[-1] for x in q.names_loaded(h.type) | {q.src(h.type)}]]
+    R.need(hs, "idiom: %s has no handler for GeneratorExit" % driver.qualname)
+    subs = [c for c in R.repo.all_classes() if "GeneratorExit" in c.ext_bases()]
+    carriers = set()
+    for h in hs:
+        # the result carrier: the class under whose test the handler reads <error>.result
+        for t in ast.walk(h):
+            if isinstance(t, ast.If):
+                k_, s_, pos_ = q.atom_test(t.test)
+                if any(isinstance(x, ast.Attribute) and x.attr in ("result", "value") and isinstance(x.value, ast.Name) and x.value.id == h.name for b in t.body for x in ast.walk(b)):
+                    for c in subs:
+                        if c.name in q.src(t.test):
+                            carriers.add(c.name)
+    n = 0
+    for c in subs:
+        if c.name in carriers:
+            continue
+        for h in hs:
+            n += 1
+            tests = [nd for nd in cfg.nodes if nd.kind == "test" and any(nd.ast is x for x in ast.walk(h)) and c.name in q.src(nd.ast)]
+            ok = False
+            px = None
+            for t in tests:
+                k_, s_, pos_ = q.atom_test(t.ast)
+                if k_ not in ("is", "isinstance", "eq"):
+                    continue
+                starts = [e.dst for e in cfg.out_edges(t.id, N) if e.label == ("T" if pos_ else "F")]
+                accs = [x for x, cc in ro.calls_to(driver, [acc])]
+                px = cfg.find_path(starts, [cfg.exit], N, cut_nodes=accs)
+                if px is None and accs:
+                    ok = True
+            R.check(ok, rule, "%s:%s" % (driver.qualname, c.name), R.site(driver, h),
+                    "a %s caught from the generator fails the task (%s)" % (c.name, acc.name),
+                    "a %s raised in a task body (or thrown into it by a failed dependency and not caught) is treated like a plain GeneratorExit: the task "
+                    "completes with the value None instead of failing - value() returns None and the awaiting task sees no exception at its yield" % c.name,
+                    cfg.fmt_path(px) if px else None)
+    R.check(n >= 1, rule, driver.qualname + ":generator-exit-subclasses", R.site(driver),
+            "%d GeneratorExit subclasses of the package that are failures examined" % n, "no GeneratorExit subclass besides the result carrier found")
